@@ -384,7 +384,7 @@ Section Agree2.
              | [] => Ok acc0
              | (kb, x) :: r =>
                do kv <- sonic_key Jit o k kb;
-               (if false && match k, e, x with KStr, TStr, JNull => true | _, _, _ => false end then Err
+               (if false && match k, e, x with KStr, TStr, JNull => true | _, _, _ => false end then go r (map_set acc0 kv (VStr []))
                 else do ev <- sonic_bind h Jit o e x match map_get acc0 kv with Some x0 => x0 | None => zero e end;
                      go r (map_set acc0 kv ev))
              end) l acc =
